@@ -48,6 +48,10 @@ func main() {
 		r.Cases("aim", aimWorkers, aimWorkers, func(c *vkit.Case) { aim(c) })
 		r.Cases("poison", r.Scale(40, 600), 1, func(c *vkit.Case) { poison(c) })
 		r.Floor("aim cycles", r.Table("aim", "cycles (fill aimed at timer expiry, then under-filled victim batch judged)"), 10000)
+		r.Cases("overdue-cancel", r.Scale(400, 6000), 1, func(c *vkit.Case) { overdueCancel(c) })
+		r.Cases("held-back", r.Scale(12, 60), 12, func(c *vkit.Case) { heldBack(c) })
+		r.Floor("overdue batches visited by impatient consumers", r.Table("overdue-cancel", "rounds"), 300)
+		r.Floor("streams judged for late hand-over of later batches", r.Table("held-back", "streams"), 10)
 		r.Floor("poison rounds", r.Table("poison", "rounds"), 30)
 		// (how many waiters arrived while full() was running depends on machine load: recorded, not a floor)
 		r.Floor("timer-edge trials", r.Table("timer-edge", "trials"), 100)
